@@ -269,6 +269,9 @@ type FuncSpec struct {
 	DynCalls   map[int]string // dyncall ordinal -> type contract name
 	CallUses   map[string]string // "callee#k" -> variant name used at that call site
 	NoSafety   bool
+	NoInherit  bool
+	AliasParams []string // parameter names of the refined type contract (positional aliases)
+	Captured   []*Clause // facts about immutable captured variables: checked where the closure is created, assumed at its entry
 	File       string
 	Line       int
 	Lets       []*Hint // named abbreviations: let name := expr (evaluated at entry)
